@@ -200,6 +200,22 @@ def render_check(task):
                 node = nodes.by(path)
                 sm = node.source_map
                 if tuple(sm['begin']) == (0, 0):
+                    # an entry without text has no line to quote: the report must not print one
+                    try:
+                        try:
+                            raise Errors.Logic(node)
+                        except Errors.Logic as err:
+                            out0 = str(ErrorRender(err))
+                        if 'via Node:' in out0:
+                            sig = [variant, 'quotation-for-node-without-position']
+                            if tuple(sig) not in seen:
+                                seen.add(tuple(sig))
+                                viol.append((sig, f'{mod} {path}: the node has no position (0,0)-(0,0) but the report quotes {out0[out0.index("via Node:"):][:90]!r}', {'src': text}))
+                    except Exception as e:  # noqa
+                        sig = [variant, 'render-raises', type(e).__name__]
+                        if tuple(sig) not in seen:
+                            seen.add(tuple(sig))
+                            viol.append((sig, f'{mod} {path}: ErrorRender raised {type(e).__name__}: {e}', {'src': text}))
                     continue
                 n += 1
                 try:
